@@ -144,7 +144,40 @@ func (w *World) Build(spec *BatchSpec, env *buildEnv) *SegH {
 	h := &SegH{Name: fmt.Sprintf("s%d", w.nseg), Seg: seg, Kind: "mem", Spec: spec, Mode: zap.DefaultChunkMode, Size: size,
 		Roots: map[int]bool{w.nseg: true}}
 	r.count("op.build")
+	w.countSpecProbes(spec)
 	return h
+}
+
+// countSpecProbes records which rare input shapes a built batch contained.
+func (w *World) countSpecProbes(spec *BatchSpec) {
+	r := w.r
+	regularDV, compositeDV := false, false
+	for i := range spec.Docs {
+		d := &spec.Docs[i]
+		for j := range d.Fields {
+			f := &d.Fields[j]
+			if f.Kind == 's' {
+				if len(f.Syn) == 0 {
+					r.count("probe.syn.empty-thesaurus")
+				}
+				for _, def := range f.Syn {
+					if def.Term == "" {
+						r.count("probe.syn.empty-term")
+					}
+				}
+			} else if f.Opts.IncludeDocValues() {
+				regularDV = true
+			}
+		}
+		for j := range d.Composite {
+			if d.Composite[j].Opts.IncludeDocValues() {
+				compositeDV = true
+			}
+		}
+	}
+	if compositeDV && !regularDV {
+		r.count("probe.dv.composite-only")
+	}
 }
 
 func (w *World) Add(h *SegH) { w.Segs = append(w.Segs, h) }
